@@ -49,7 +49,7 @@ ConfigPaths = Union[None, FilePath, Sequence[FilePath]]
 
 _token_pattern = re.compile(r'%(.)')
 _env_pattern = re.compile(r'\${(.*?)}')
-_unsafe_user_pattern = re.compile(r'^\.\.$|^~|^[A-Za-z]:|[/\\]|\$\{.*?\}')
+_unsafe_user_pattern = re.compile(r'^\.$|^\.\.$|^~|^[A-Za-z]:|[/\\]|\$\{.*?\}')
 
 
 def _exec(cmd: str) -> bool:
